@@ -58,10 +58,11 @@ def qbytes_int_mm(activations: torch.Tensor, weights: torch.Tensor, output_scale
 def qbytes_int8pack_mm(activations: torch.Tensor, weights: torch.Tensor, output_scales: torch.Tensor) -> torch.Tensor:
     # torch._weight_int8pack_mm expects a vector of scales (one per output feature)
     output_scales = output_scales.flatten().expand(weights.shape[0]).contiguous()
-    if weights.data_ptr() % 16 != 0:
+    if weights.data_ptr() % 16 != 0 or not weights.is_contiguous():
         # torch._weight_int8pack_mm crashes on CPU when the weights are not aligned on 16 bytes,
-        # which happens with memory-mapped weights (safetensors)
-        weights = weights.clone()
+        # which happens with memory-mapped weights (safetensors), and requires contiguous weights
+        # (weights quantized from a transposed Tensor are not)
+        weights = weights.clone(memory_format=torch.contiguous_format)
     if activations.ndim == 2:
         # torch._weight_int8pack_mm requires activations that are contiguous on the last dimension
         return torch._weight_int8pack_mm(activations.contiguous(), weights, output_scales)
